@@ -301,12 +301,11 @@ class PropertyRun:
                     self.violations.append(dict(obligation=name, replay=path, confirmed=True, detail=d2))
             if not c.replay:
                 continue
-            short = c.qn.split(".")[-1]
-            if any(short in k["obligation"].split("/")[0] for k in self.known):
-                continue  # a driver of a function with recorded known findings would report those again: no stand-in for it
+            # a driver that is the witness of a recorded known finding would report that finding again: it is not used as a stand-in
+            known_drivers = {(k.get("witness") or {}).get("driver") for k in load_known() if not k.get("fixed")}
             pairs = [(None, c.replay)] if isinstance(c.replay, str) else list(c.replay.items())
             for lab, drv in pairs:
-                if (c.key, drv) in done:
+                if (c.key, drv) in done or drv in known_drivers:
                     continue
                 done.add((c.key, drv))
                 name = "%s/%s/%s" % (self.pid, c.qn.split(".")[-1] if "." in c.qn else c.qn, ("ensures:" + lab) if lab else "driver:" + drv)
